@@ -1,5 +1,6 @@
 """C01 — mesh cells tile the region; index<->coordinate maps are mutually inverse."""
 import itertools
+import keyword
 from fractions import Fraction
 
 import numpy as np
@@ -12,16 +13,48 @@ import discretisedfield as df
 PID = "C01"
 RULE = ("meshes drawn from two regimes: 'exact' (dyadic corners/cells, 1-4 dims, every float op exact -> "
         "implementation must EQUAL the rational model) and 'tol' (scales 1e-12..1e6, offsets up to 1e3 edges, "
-        "thirds/tenths -> 2^-40 relative bound, boundary comparator for indices); per mesh: all indices, "
-        "iteration, cells, vertices, coordinate field, index2point on every index and on out-of-range ones, "
-        "point2index on centres, vertices, interior, face +- {0,1/2,2} tolerance and outside points, constructor "
-        "by cell size (exact divisor, 1e-6 off, 10 % off, too large). non-trivial = at least 2 cells and at least "
-        "one probe point not on a cell centre; distinct by hash of the canonical case")
+        "thirds/tenths -> 2^-40 relative bound; indices by the PROVED band: computed and exact index may differ only as "
+        "the two cells sharing an interior face the point is within 16*u*q cells of - theorem point2index_fl_band proves "
+        "5*u*q for the code's operation sequence); per mesh: all indices, "
+        "iteration, cells, vertices, coordinate field (code-shaped reshape/broadcast model), index2point on every index "
+        "and on out-of-range ones, point2index on centres, vertices, interior, cell and region faces approached to within "
+        "0, 1, 2, 3, 64 ulp from both sides at every scale (near-face), face +- {1/2, 0.999, 1.001, 3} tolerance and "
+        "outside points, constructor by cell size (exact divisor, 1e-6 off, 10 % off, too large). non-trivial = at least "
+        "2 cells and at least one probe point not on a cell centre; distinct by hash of the canonical case")
 TRUSTED = ["correspondence harness harness/c01.py + driver JSON glue",
            "binary64 arithmetic of NumPy obeys the standard model (tolerance regime)"]
-ASSUMPTIONS = ["theorems are about exact rational arithmetic; float rounding enters only via the tolerance comparators"]
-UNPROVED = []
-NAMES = ["x", "y", "z", "a", "b", "c", "u", "v", "w", "t"]
+ASSUMPTIONS = ["theorems are about exact rational arithmetic or about an abstract rounding fl with |fl x - x| <= u|x| "
+               "(binary64 = C15.fl64, u = 2^-53, exponent range not modelled); IEEE binary64 as executed by NumPy is assumed "
+               "to satisfy that model on the scales the property quantifies over",
+               "fidelity of the binary64 model (filled in by each run)"]
+UNPROVED = [
+    "rounded arithmetic covers Mesh.cell, point2index, index2point, cells, vertices and Region.__contains__ (theorems "
+    "quotient_fl_err, point2index_fl_exact/_band/_tol/_rejects, contains_fl_sandwich, roundtrip_fl_code, cells_fl_err, "
+    "vertices_fl_err, cells_fl_roundtrip, *_binary64) under the standard model of rounding; the outcome of the containment "
+    "test is bracketed - accepted inside (1-4u) x tolerance, refused outside (1+5u) x tolerance - and not determined by a "
+    "theorem inside that bracket (relative width 9u): the harness probes the threshold at (1 +- 1e-3) only",
+    "coordinate_field in rounded arithmetic copies the numbers of Mesh.cells (cells_fl_err, cells_fl_roundtrip apply to "
+    "them); its reshape/broadcast is proved in exact arithmetic only (coord_field_refines); dV, volume, cells, vertices in "
+    "rounded arithmetic have explicit bounds (dV_fl_err, volume_fl_err, volume_tiles_fl, dV_binary64, cells_fl_err, "
+    "vertices_fl_err) for the evaluation order NumPy uses now - the harness compares them with the looser 2^-40 bound so "
+    "that another evaluation order is no alarm",
+    "Mesh(cell=...) in rounded arithmetic (np.remainder / np.round on floats): by_cell_ok_iff is exact arithmetic; the "
+    "harness stays clear of the 0.1 % threshold (cells exact, 1e-6 off, 10 % off, far off) because no property pins it",
+    "non-finite coordinates (inf, nan) are outside rational arithmetic: judged by the oracle on the implementation alone",
+    "binary64 overflow / underflow: C15.fl64 has an unbounded exponent; the property's scales (1e-12 .. 1e6) stay far from both",
+]
+_FID = {"agree": 0, "differ": 0, "band": 0, "band5": 0, "cell_agree": 0, "cell_differ": 0, "lin_agree": 0, "lin_differ": 0, "vol_agree": 0, "vol_differ": 0}
+# dimension names: single letters, multi-character, mixed case, non-ASCII - all plain identifiers
+NAMES = ["x", "y", "z", "a", "b", "c", "u", "v", "w", "t", "theta", "r1", "Zz", "\u00e9", "x0", "len"]
+# names Region and Mesh accept although they are not plain identifiers: Mesh.cells / vertices / coordinate_field build a
+# namedtuple from them and raise (open finding D126); everything else on such a mesh must still hold
+NONIDENT = ["class", "in", "lambda", "_x", "1a", "a b", "x.1", ""]
+
+
+def _plain(name):
+    return isinstance(name, str) and name.isidentifier() and not keyword.iskeyword(name) and not name.startswith("_")
+U64 = Fraction(1, 2 ** 53)   # unit roundoff of binary64
+BAND = 16                    # harness band in units of u*q; Props/C01.point2index_fl_band proves 5 for the code as it is
 
 
 def gen_mesh(rng, regime):
@@ -81,6 +114,26 @@ def cases(rng, tier):
         p1 = [rng.randint(-lim, lim) for _ in range(nd)]
         yield dict(regime="tol", stream="intbig", p1=p1, p2=[a + e for a, e in zip(p1, edge)], n=n,
                    dims=rng.sample(NAMES, nd) if rng.random() < 0.3 else None, sub=rng.getrandbits(32))
+    # dimension names that are no plain identifiers (finding D126: cells / vertices / coordinate_field raise; the rest holds)
+    for k in range(8 if tier == "quick" else 40):
+        c = gen_mesh(rng, "exact")
+        nd = len(c["n"])
+        dims = rng.sample(NAMES, nd)
+        for ax in rng.sample(range(nd), rng.randint(1, nd)):
+            dims[ax] = NONIDENT[(k + ax) % len(NONIDENT)]
+        if len(set(dims)) == nd:
+            c.update(dims=dims, stream="nonident", sub=rng.getrandbits(32))
+            yield c
+    # corner points given as small Python ints with cells that are not whole numbers (two or four cells per unit, or
+    # thirds): centres, vertices and the coordinate field are non-integers although the corners are integer-typed
+    for k in range(14 if tier == "quick" else 120):
+        nd = rng.choice([1, 2, 3, 3])
+        ie = [rng.randint(1, 4) for _ in range(nd)]
+        exact = k % 2 == 0
+        n = [e * rng.choice([1, 2, 4]) if exact else rng.choice([1, 3, 5, 7]) for e in ie]
+        p1 = [rng.randint(-9, 9) for _ in range(nd)]
+        yield dict(regime="exact" if exact else "tol", stream="intfrac", p1=p1, p2=[a + e for a, e in zip(p1, ie)], n=n,
+                   dims=None, sub=rng.getrandbits(32))
     # malformed stream
     yield dict(regime="exact", p1=[0.0, 0.0], p2=[1.0, 0.0], n=[1, 1], dims=None, sub=1)   # zero edge
     yield dict(regime="exact", p1=[0.0, 0.0], p2=[1.0, 1.0], n=[1, 0], dims=None, sub=2)   # zero count
@@ -121,7 +174,7 @@ def probe_points(m, rng, regime):
         base = [float(a + 0.5 * e) for a, e in zip(pmin, edges)]
         for side, sgn in (("lo", -1), ("hi", +1)):
             face = float(pmin[ax]) if side == "lo" else float(pmax[ax])
-            for mult, tag in ((0.5, "band-in"), (3.0, "band-out")):
+            for mult, tag in ((0.5, "band-in"), (0.999, "band-in"), (1.001, "band-out"), (3.0, "band-out")):
                 p = list(base)
                 # absolute + relative part of np.isclose
                 p[ax] = face + sgn * mult * (tol + m.region.tolerance_factor * abs(face))
@@ -133,6 +186,23 @@ def probe_points(m, rng, regime):
         p = list(base)
         p[ax] = float(pmin[ax] - 2.0 * edges[ax])
         pts.append(("outside", p))
+    # cell faces approached to within a few units in the last place, at whatever scale and offset the mesh has: here
+    # rounding decides the floor (theorems point2index_fl_exact / point2index_fl_band: the computed index is the exact
+    # one unless the point is within relative distance 5u of an interior face, and then the neighbour across that face)
+    for ax in range(ndim):
+        k = int(n[ax])
+        for j in {0, k, rng.randint(0, k), rng.randint(0, k), min(k, 1), max(0, k - 1)}:
+            base = [float(a + rng.random() * e) for a, e in zip(pmin, edges)]
+            face = float(pmin[ax] + j * cell[ax]) if j < k else float(pmax[ax])
+            if rng.random() < 0.5:
+                face = float(pmin[ax] + (float(pmax[ax]) - float(pmin[ax])) * j / k) if j < k else face
+            for ul in (-64, -3, -2, -1, 0, 1, 2, 3, 64):
+                x = face
+                for _ in range(abs(ul)):
+                    x = float(np.nextafter(x, np.inf if ul > 0 else -np.inf))
+                q = list(base)
+                q[ax] = x
+                pts.append(("near-face", q))
     if regime == "big":
         for _ in range(40):
             i = [rng.choice([k - 1, rng.randrange(k), min(k - 1, 10 ** rng.randint(0, 5))]) for k in n]
@@ -190,6 +260,7 @@ def run_impl(case):
     obs["len"] = len(m)
     obs["dV"] = Q(m.dV)
     obs["volume"] = Q(m.region.volume)
+    obs["volume_is_int"] = isinstance(m.region.volume, int)
     if abs(float(m.region.volume) - len(m) * float(m.dV)) > 1e-9 * abs(len(m) * float(m.dV)):
         obs["oracle"].append(f"the cells do not tile the region: volume {m.region.volume!r} != len * dV = {len(m) * float(m.dV)!r}")
     big = len(m) > 400
@@ -197,10 +268,17 @@ def run_impl(case):
     if not big:
         idxs = [tuple(int(x) for x in i) for i in m.indices]
         obs["iter"] = [Qs(p) for p in m]
-        obs["cells"] = [Qs(getattr(m.cells, d)) for d in m.region.dims]
-        obs["vertices"] = [Qs(getattr(m.vertices, d)) for d in m.region.dims]
-        cf = m.coordinate_field()
-        obs["coord_field"] = [Qs(cf.array[i]) for i in idxs]
+        got = {}
+        for what, fn in (("cells", lambda: [Qs(getattr(m.cells, d)) for d in m.region.dims]),
+                         ("vertices", lambda: [Qs(getattr(m.vertices, d)) for d in m.region.dims]),
+                         ("coordinate_field", lambda: [Qs(m.coordinate_field().array[i]) for i in idxs])):
+            st_, val = _err(fn)
+            got[what] = val if st_ == "ok" else None
+            if st_ != "ok":
+                obs["oracle"].append(f"Mesh.{what} raises {val} on a mesh with dimension names {list(m.region.dims)}: "
+                                     f"this description of the lattice is not available")
+                obs["tags"].append("lattice-view-raises:" + what)
+        obs["cells"], obs["vertices"], obs["coord_field"] = got["cells"], got["vertices"], got["coordinate_field"]
         # ---- oracle on the implementation alone
         exp = [tuple(reversed(t)) for t in itertools.product(*[range(k) for k in reversed(n)])]
         if idxs != exp or len(idxs) != len(m) or len(set(idxs)) != len(idxs):
@@ -244,7 +322,7 @@ def run_impl(case):
         st, i = _err(lambda p=p: m.point2index(p))
         inreg = bool(p in m.region) if tag != "wrong-length" else False
         res.append(dict(st=st, idx=(list(i) if st == "ok" else None), inreg=inreg))
-        if tag in ("interior", "vertex", "band-in"):
+        if tag in ("interior", "vertex", "band-in", "near-face"):
             if st != "ok":
                 obs["oracle"].append(f"point of the region ({tag}) rejected: {p}")
             else:
@@ -319,6 +397,8 @@ def model_requests(case, obs):
     for tag, p in obs["pts"]:
         reqs.append(dict(op="point2index", mesh=mj, p=p))
         reqs.append(dict(op="region_contains", region=mj["region"], p=p))
+        if tag != "wrong-length":
+            reqs.append(dict(op="point2index_fl", mesh=mj, p=p))
     for b in obs["bycell"]:
         reqs.append(dict(op="mesh_mk_cell", region=mj["region"], cell=b["cell"]))
     return reqs
@@ -345,6 +425,7 @@ def compare(case, obs, rs):
             dis.append(f"Mesh(cell=...) far from the origin: n impl {b['n']} vs model {r['ok']['n']}")
         return dis
     exact = case["regime"] in ("exact", "big")
+    fid = _FID
     it = iter(rs)
     r = next(it)
     if ("ok" in r) != (obs["region"] == "ok"):
@@ -366,6 +447,12 @@ def compare(case, obs, rs):
     pm = obs["mesh_json"]["region"]
     scale = max(abs(float(F(x))) for x in pm["pmin"] + pm["pmax"])
     _cmp_list("cell", obs["cell"], info["cell"], exact, dis, scale=0.0)
+    fid["cell_agree" if obs["cell"] == info["cell_fl"] else "cell_differ"] += 1
+    fid["vol_agree" if obs["dV"] == info["dV_fl"] and (obs.get("volume_is_int") or obs["volume"] == info["volume_fl"])
+        else "vol_differ"] += 1
+    if obs.get("volume_is_int") and F(obs["volume"]) != F(info["volume"]):
+        # integer corner points: the code returns a Python integer, which claims exactness (fix 0ec4b24a, theorem volume_int)
+        dis.append(f"volume of an integer-cornered region: impl {obs['volume']} vs model {info['volume']} (exact integers)")
     for key in ("dV", "volume"):  # products of up to four floats: a few ulp, never exact in the "big" regime
         ok = core.close(float(F(obs[key])), info[key], rel=2**-40, scale=0.0)
         if not ok:
@@ -383,12 +470,22 @@ def compare(case, obs, rs):
             dis.append("indices: iteration order differs from model")
         if not info["indices_spec"]:
             dis.append("model: code-shaped indices differ from spec enumeration")
+        if not info["coord_spec"]:
+            dis.append("model: code-shaped coordinate field (reshape + broadcast) differs from its spec")
         for name in ("cells", "vertices"):
+            if obs[name] is None:      # the accessor raised: reported by the oracle (see run_impl)
+                continue
+            fid["lin_agree" if obs[name] == info[name + "_fl"] else "lin_differ"] += 1
+            if len(obs[name]) != len(info[name]):
+                dis.append(f"{name}: {len(obs[name])} axes vs model {len(info[name])}")
             for ax, (a, b) in enumerate(zip(obs[name], info[name])):
                 _cmp_list(f"{name}[{ax}]", a, b, exact, dis, scale=scale)
+        if len(obs["iter"]) != len(info["iter"]):
+            dis.append(f"iter: {len(obs['iter'])} points vs model {len(info['iter'])}")
         for k, (a, b) in enumerate(zip(obs["iter"], info["iter"])):
             _cmp_list(f"iter[{k}]", a, b, exact, dis, scale=scale)
-            _cmp_list(f"coordinate_field[{k}]", obs["coord_field"][k], info["coord"][k], exact, dis, scale=scale)
+            if obs["coord_field"] is not None:
+                _cmp_list(f"coordinate_field[{k}]", obs["coord_field"][k], info["coord"][k], exact, dis, scale=scale)
     for k, a in enumerate(obs["i2p"]):
         r = next(it)
         if "ok" not in r:
@@ -402,21 +499,43 @@ def compare(case, obs, rs):
     for (tag, p), res in zip(obs["pts"], obs["p2i"]):
         r = next(it)
         rc = next(it)
+        rf = next(it) if tag != "wrong-length" else None
+        if rf is not None:
+            # fidelity of the binary64 model (every operation of point2index / __contains__ rounded by C15.fl64): recorded,
+            # not demanded - another evaluation order is no defect as long as the proved band below is respected
+            same = ("ok" in rf) == (res["st"] == "ok") and rf.get("ok") == res["idx"] and rf["inreg"] == res["inreg"]
+            fid["agree" if same else "differ"] += 1
         if tag != "wrong-length" and rc["ok"] != res["inreg"]:
             dis.append(f"point in region {p} ({tag}): impl {res['inreg']} vs model {rc['ok']}")
         if ("ok" in r) != (res["st"] == "ok"):
             dis.append(f"point2index({p}) ({tag}): impl {res['st']} vs model {r}")
         elif "ok" in r and r["ok"] != res["idx"]:
-            # boundary comparator: within 1e-9 cell of a face either neighbour is allowed (tolerance regime)
+            # boundary comparator = the band of theorem point2index_fl_band: computed and exact index may differ only
+            # when they are the two cells sharing an interior face j and the point is within BAND*u*q cells of that face
+            # (q = exact (x - pmin)/cell; proved constant 5 for the code's operation sequence, BAND = 16 granted)
             okb = False
-            if not exact:
+            if not exact or tag == "near-face":   # a point moved by a few ulp off a dyadic face is not a dyadic input
                 okb = True
                 for ax, (a, b) in enumerate(zip(res["idx"], r["ok"])):
-                    fr = float(F(r["frac"][ax]))
-                    if a != b and not (abs(a - b) == 1 and min(fr, 1 - fr) < 1e-9):
+                    if a == b:
+                        continue
+                    q = F(r["q"][ax])
+                    j = max(a, b)
+                    if not (abs(a - b) == 1 and abs(q - j) <= BAND * U64 * abs(q)):
                         okb = False
+                    elif abs(q - j) <= 5 * U64 * abs(q):
+                        fid["band5"] += 1
             if not okb:
-                dis.append(f"point2index({p}) ({tag}): impl {res['idx']} vs model {r['ok']}")
+                dis.append(f"point2index({p}) ({tag}): impl {res['idx']} vs model {r['ok']} (exact quotient {[float(F(x)) for x in r['q']]})")
+            else:
+                fid["band"] += 1
+    ASSUMPTIONS[-1] = (f"fidelity of the binary64 model in this run (recorded, not demanded): point2index / 'in region' computed with "
+                       f"every operation rounded by C15.fl64 agreed bit for bit with the implementation on {fid['agree']} of "
+                       f"{fid['agree'] + fid['differ']} probe points, Mesh.cell on {fid['cell_agree']} of "
+                       f"{fid['cell_agree'] + fid['cell_differ']} meshes, Mesh.cells / Mesh.vertices (linspaceFl) on {fid['lin_agree']} of "
+                       f"{fid['lin_agree'] + fid['lin_differ']} lists of lists, dV / volume (prodFl) on {fid['vol_agree']} of "
+                       f"{fid['vol_agree'] + fid['vol_differ']} meshes; {fid['band']} probe points got the neighbouring cell of the "
+                       f"exact index ({fid['band5']} axis-wise inside the proved band 5*u*q, the others inside the granted 16*u*q)")
     for b in obs["bycell"]:
         r = next(it)
         if ("ok" in r) != (b["st"] == "ok"):
@@ -445,6 +564,11 @@ def nontrivial(case, obs):
 
 
 def known(case, text):
+    # D126: exactly the failures of the three namedtuple-based views on a mesh with a non-identifier dimension name
+    dims = case.get("dims") or []
+    if any(not _plain(d) for d in dims) and text.startswith(("Mesh.cells raises", "Mesh.vertices raises",
+                                                            "Mesh.coordinate_field raises")):
+        return "D126"
     return None
 
 
